@@ -39,7 +39,7 @@ theorem expression_statement_echoed (P : Platform) (f : Nat) (e : Expr) (env : N
     evalS P (f + 1) (.expr e) env true σ = .ok (v, .none) (σ1.print (t ++ ['\n'])) ∧
     (evalE P f e env false σ = .ok (v, .none) σ1 → evalS P (f + 1) (.expr e) env false σ = .ok (v, .none) σ1) := by
   constructor
-  · rw [evalS]; simp only [h0, he]; simp [h1, ht]
-  · intro he'; rw [evalS]; simp only [h0, he']; simp
+  · rw [evalS]; simp only [guardErr, ER.seq, Res.bind, h0, he]; simp [guardErr, ER.seq, Res.bind, h1, ht]
+  · intro he'; rw [evalS]; simp only [guardErr, ER.seq, Res.bind, h0, he']; simp
 
 end Borno.Props.C20
